@@ -292,3 +292,320 @@ Section RegLS.
     rewrite -[w'](subrK w) addrC fn2D Hip mulr0 addr0 ler_addl; exact: fn2_ge0.
   Qed.
 End RegLS.
+
+(* ---- one regularised fit as the code computes it ---------------------------------------- *)
+Section Fold.
+  Variable F : rcfType.
+  Local Notation rops := (rops F).
+
+  Lemma inj_mxE m n (A : 'M[F]_(m, n)) : inj_mx A m n = A.
+  Proof.
+    rewrite /inj_mx; case: eqP => // e1; case: eqP => // e2.
+    by rewrite (eq_axiomK e1) (eq_axiomK e2) castmx_id.
+  Qed.
+
+  Lemma env_set_same (env : env_mx F) x m n (A : 'M[F]_(m, n)) : env_set env x A m n x = A.
+  Proof. by rewrite /env_set eqxx inj_mxE. Qed.
+
+  Lemma env_set_other (env : env_mx F) x0 m0 n0 (A : 'M[F]_(m0, n0)) m n x :
+    x != x0 -> env_set env x0 A m n x = env m n x.
+  Proof. by rewrite /env_set => /negbTE ->. Qed.
+
+  (* entries of the filter the code builds by slicing [:n] / [:n_alpha] *)
+  Lemma gvecE k cutoff rcond alpha (s : 'cV[F]_k) (i : 'I_k) :
+    (forall i j : 'I_k, (i <= j)%N -> s j ord0 <= s i ord0) ->
+    list_col k (gvec rops cutoff (count_gt rops rcond (col_list s)) alpha (col_list s)) i ord0
+    = if keep cutoff rcond alpha (s i ord0)
+      then (if cutoff then 1 / s i ord0 else s i ord0 / (s i ord0 * s i ord0 + alpha))
+      else 0.
+  Proof.
+    move=> Hs; have Hd := desc_col_list Hs.
+    have Hi : (i < size (col_list s))%N by rewrite size_col_list.
+    rewrite /gvec /keep; case: cutoff => /=.
+    - by rewrite /filt_cut list_col_map_upto nminE leq_min !count_gt_desc // nth_col_list.
+    - by rewrite /filt_tik list_col_map_upto count_gt_desc // nth_col_list andbT.
+  Qed.
+
+  Section One.
+    Variables (m p k t : nat) (env : env_mx F) (xX xU xS xV xy : nat).
+    Variables (cutoff : bool) (rcond alpha : F).
+    Hypothesis HG : [&& xV != vG, xU != vG & xy != vG].
+    Hypothesis Hsvd : svd_hyp env m p k xX xU xS xV.
+    Hypothesis rc0 : 0 <= rcond.
+    Hypothesis al0 : cutoff || (0 <= alpha).
+    Let U := env m k xU.
+    Let V := env p k xV.
+    Let s := env k 1%N xS.
+    Let y := env m t xy.
+    Let X := env m p xX.
+    Let g := list_col k (gvec rops cutoff (count_gt rops rcond (col_list s)) alpha (col_list s)).
+    Let W := eval_mx (env_set env vG g) (w_prog m p k t xV vG xU xy).
+    Let Xr := U *m diag_mx (strunc cutoff rcond alpha s)^T *m V^T.
+
+    Let UU : U^T *m U = 1%:M.
+    Proof. by case: Hsvd => /= /eqP; rewrite subr_eq0 => /eqP. Qed.
+    Let VV : V^T *m V = 1%:M.
+    Proof. by case: Hsvd => _ /= /eqP; rewrite subr_eq0 => /eqP. Qed.
+    Let XE : X = U *m diag_mx s^T *m V^T.
+    Proof. by case: Hsvd => _ _ /= /eqP; rewrite subr_eq0 => /eqP. Qed.
+    Let Hs : forall i j : 'I_k, (i <= j)%N -> s j ord0 <= s i ord0.
+    Proof. by case: Hsvd. Qed.
+
+    Lemma fold_W : W = Wof U V y g.
+    Proof.
+      case/and3P: HG => h1 h2 h3.
+      by rewrite /W /Wof /= env_set_same !env_set_other.
+    Qed.
+
+    Let gE i : g i ord0 = if keep cutoff rcond alpha (s i ord0)
+      then (if cutoff then 1 / s i ord0 else s i ord0 / (s i ord0 * s i ord0 + alpha)) else 0.
+    Proof. exact: gvecE. Qed.
+
+    Let kept_pos i : keep cutoff rcond alpha (s i ord0) -> 0 < s i ord0.
+    Proof. by case/andP => /(le_lt_trans rc0). Qed.
+
+    Let den_pos i : keep cutoff rcond alpha (s i ord0) -> ~~ cutoff -> 0 < s i ord0 * s i ord0 + alpha.
+    Proof.
+      move=> Hk Hc; move: al0; rewrite (negbTE Hc) /= => a0.
+      by apply: ltr_paddr => //; apply: mulr_gt0; exact: kept_pos.
+    Qed.
+
+    (* W solves the (regularised) normal equations of the rank-truncated fold matrix ... *)
+    Lemma fold_normal_eq : (Xr^T *m Xr + (aeff cutoff alpha)%:M) *m W = Xr^T *m y.
+    Proof.
+      rewrite fold_W; apply: filter_normal_eq => // i; rewrite gE !mxE.
+      case Hk: (keep _ _ _ _); last by rewrite mulr0.
+      have sp := kept_pos Hk; rewrite /aeff.
+      case Hc: cutoff; first by rewrite addr0 mul1r -mulrA mulfV ?mulr1 // gt_eqF.
+      by rewrite mulrC -mulrA mulVf ?mulr1 // gt_eqF // den_pos // Hc.
+    Qed.
+
+    (* ... and lies in its row space *)
+    Lemma fold_rowspace : exists z, W = Xr^T *m z.
+    Proof.
+      pose h : 'cV[F]_k := \col_i (if keep cutoff rcond alpha (s i ord0)
+        then (if cutoff then (s i ord0 * s i ord0)^-1 else (s i ord0 * s i ord0 + alpha)^-1) else 0).
+      exists (U *m diag_mx h^T *m (U^T *m y)); rewrite fold_W.
+      apply: filter_rowspace => // i; rewrite gE !mxE.
+      case Hk: (keep _ _ _ _); last by rewrite mulr0.
+      have sp := kept_pos Hk.
+      case Hc: cutoff => //.
+      by rewrite mul1r invfM mulrA mulfV ?mul1r // gt_eqF.
+    Qed.
+
+    (* the truncated matrix is X itself when every dropped singular value is exactly 0 *)
+    Lemma fold_trunc_exact :
+      (forall i, ~~ keep cutoff rcond alpha (s i ord0) -> s i ord0 = 0) -> Xr = X.
+    Proof.
+      move=> H; rewrite XE /Xr; congr (_ *m diag_mx _^T *m _).
+      by apply/colP => i; rewrite mxE; case Hk: (keep _ _ _ _) => //; rewrite H // Hk.
+    Qed.
+
+    (* no component along dropped right singular vectors *)
+    Lemma fold_excluded (i : 'I_k) :
+      ~~ keep cutoff rcond alpha (s i ord0) -> (col i V)^T *m W = 0.
+    Proof.
+      by move=> Hk; rewrite fold_W; apply: filter_component => //; rewrite gE (negbTE Hk).
+    Qed.
+
+    (* |W| <= |y| / rcond *)
+    Lemma fold_bounded : 0 < rcond -> rcond ^+ 2 * fn2 W <= fn2 y.
+    Proof.
+      move=> rp; rewrite fold_W.
+      have rn : rcond ^+ 2 != 0 by rewrite expf_neq0 // gt_eqF.
+      have r2 : 0 < rcond ^+ 2 by rewrite exprn_gt0.
+      rewrite -(ler_pdivl_mull _ _ r2).
+      apply: filter_bounded => //; first by rewrite invr_ge0 ltW.
+      move=> i; rewrite gE -exprVn.
+      case Hk: (keep _ _ _ _); last by rewrite expr0n /= exprn_ge0 // invr_ge0 ltW.
+      have sp := kept_pos Hk.
+      have rs : rcond < s i ord0 by case/andP: Hk.
+      have H1 : (s i ord0)^-1 <= rcond^-1 by rewrite lef_pinv ?posrE // ltW.
+      have V0 : 0 <= (s i ord0)^-1 by rewrite invr_ge0 ltW.
+      have [g0 gle] : 0 <= (if cutoff then 1 / s i ord0 else s i ord0 / (s i ord0 * s i ord0 + alpha))
+                      /\ (if cutoff then 1 / s i ord0 else s i ord0 / (s i ord0 * s i ord0 + alpha))
+                         <= rcond^-1.
+        case Hc: cutoff; first by rewrite mul1r.
+        have dp : 0 < s i ord0 * s i ord0 + alpha by apply: den_pos; rewrite ?Hk ?Hc.
+        have a0 : 0 <= alpha by move: al0; rewrite Hc.
+        split; first by apply: divr_ge0; exact: ltW.
+        apply: le_trans H1.
+        by rewrite ler_pdivr_mulr // mulrDr mulrA mulVf ?gt_eqF // mul1r ler_addl mulr_ge0.
+      by apply: ler_expn2r; rewrite ?nnegrE ?invr_ge0 ?(ltW rp).
+    Qed.
+
+    Lemma fold_reg_solution :
+      reg_solution U (strunc cutoff rcond alpha s) V y (aeff cutoff alpha) W.
+    Proof. split; [exact: fold_normal_eq | exact: fold_rowspace]. Qed.
+  End One.
+End Fold.
+
+(* ---- meaning of [reg_solution] ----------------------------------------------------------- *)
+Section RegSolution.
+  Variable F : rcfType.
+  Variables (m p k t : nat) (U : 'M[F]_(m, k)) (sr : 'cV[F]_k) (V : 'M[F]_(p, k)).
+  Variables (y : 'M[F]_(m, t)) (a : F) (W : 'M[F]_(p, t)).
+  Hypothesis H : reg_solution U sr V y a W.
+  Let Xr := U *m diag_mx sr^T *m V^T.
+
+  Lemma reg_solution_min : 0 <= a -> forall w', ridge_obj Xr y a W <= ridge_obj Xr y a w'.
+  Proof. by move=> a0; apply: normal_eq_min => //; case: H. Qed.
+
+  Lemma reg_solution_unique w' : 0 < a -> (Xr^T *m Xr + a%:M) *m w' = Xr^T *m y -> w' = W.
+  Proof. by move=> a0; apply: normal_eq_unique => //; case: H. Qed.
+
+  Lemma reg_solution_min_norm w' : a = 0 -> Xr^T *m Xr *m w' = Xr^T *m y -> fn2 W <= fn2 w'.
+  Proof.
+    case: H => H1 [z Hz] a0; apply: min_norm Hz; move: H1.
+    by rewrite a0 -scalemx1 scale0r addr0.
+  Qed.
+End RegSolution.
+
+(* ---- the whole fit ---------------------------------------------------------------------- *)
+Section Whole.
+  Variable F : rcfType.
+  Variable d : r2f_dims.
+  Variable c : r2f_cfg F (d_t d).
+  Local Notation rops := (rops F).
+  Local Notation n1 := (d_n1 d).  Local Notation n2 := (d_n2 d).  Local Notation n := (d_n d).
+  Local Notation p := (d_p d).    Local Notation t := (d_t d).
+  Local Notation k1 := (d_k1 d).  Local Notation k2 := (d_k2 d).  Local Notation k := (d_k d).
+  Local Notation nn := (d_nn d).
+  Local Notation env := (c_env c).        Local Notation scorer := (c_scorer c).
+  Local Notation alphas := (c_alphas c).  Local Notation relative := (c_relative c).
+  Local Notation cutoff := (c_cutoff c).  Local Notation rcond := (c_rcond c).
+  Hypothesis Hyp : r2f_hyps c.
+
+  Lemma size_salphas : size (salphas c) = size alphas.
+  Proof. by rewrite /salphas /scaled_alphas; case: relative => //; rewrite size_map. Qed.
+
+  Lemma size_cv_values : size (cv_values c) = size alphas.
+  Proof. by rewrite /cv_values size_map size_salphas. Qed.
+
+  (* weights fitted on fold 1 / fold 2 / the full data for the (scaled) parameter a *)
+  Definition W1 (a : F) : 'M[F]_(p, t) :=
+    eval_mx (env_set env vG (g1 c a)) (w_prog n1 p k1 t vV1 vG vU1 vy1).
+  Definition W2 (a : F) : 'M[F]_(p, t) :=
+    eval_mx (env_set env vG (g2 c a)) (w_prog n2 p k2 t vV2 vG vU2 vy2).
+  Definition Wfull (a : F) : 'M[F]_(p, t) :=
+    eval_mx (env_set env vG (gfull c a)) (w_prog n p k t vV vG vU vy).
+
+  (* cv_values_[j] = mean of the scorer on (fold-1 model, fold-2 data) and (fold-2 model,
+     fold-1 data): the cached products reproduce X_other @ W_fold *)
+  Lemma cv_values_nth j : (j < size alphas)%N ->
+    nth 0 (cv_values c) j =
+    (scorer (env n2 t vy2) (env n2 p vX2 *m W1 (nth 0 (salphas c) j))
+     + scorer (env n1 t vy1) (env n1 p vX1 *m W2 (nth 0 (salphas c) j))) / 2%:R.
+  Proof.
+    move=> Hj; rewrite /cv_values (nth_map 0) ?size_salphas // /cv_value /pred12 /pred21 /W1 /W2.
+    by rewrite /pred_prog /w_prog /= !env_set_same !env_set_other // !mulmxA.
+  Qed.
+
+  (* relative alphas are scaled by the largest singular value of the two folds *)
+  Lemma lmax_in (l : seq F) : (0 < size l)%N ->
+    lmax rops l \in l /\ forall x, x \in l -> x <= lmax rops l.
+  Proof.
+    case: l => [|x l] // _; rewrite /lmax /=.
+    have [Hin Hge Hall] := fold_omax x l; split=> // z.
+    by rewrite inE => /orP[/eqP->|/Hall].
+  Qed.
+
+  Lemma salphas_nth j : (j < size alphas)%N ->
+    nth 0 (salphas c) j
+    = if relative then nth 0 alphas j * Num.max (lmax rops (s1 c)) (lmax rops (s2 c))
+      else nth 0 alphas j.
+  Proof.
+    move=> Hj; rewrite /salphas /scaled_alphas; case: relative => //.
+    by rewrite (nth_map 0).
+  Qed.
+
+  Lemma col_list_ge0 kk (s : 'cV[F]_kk) : (forall i, 0 <= s i ord0) -> forall x, x \in col_list s -> 0 <= x.
+  Proof. by move=> H x /mapP [i _ ->]. Qed.
+
+  Lemma lmax_ge0 (l : seq F) : (forall x, x \in l -> 0 <= x) -> 0 <= lmax rops l.
+  Proof.
+    case: l => [|x l] H; first by rewrite /lmax /=.
+    have [Hin _] := @lmax_in (x :: l) isT; exact: H.
+  Qed.
+
+  Lemma salphas_ge0 j : (j < size alphas)%N -> 0 <= nth 0 (salphas c) j.
+  Proof.
+    case: Hyp => -[_ _ _ _ H1] [_ _ _ _ H2] _ _ [_ /allP Ha] Hj.
+    have aj : 0 <= nth 0 alphas j by apply: Ha; exact: mem_nth.
+    rewrite salphas_nth //; case: relative => //; apply: mulr_ge0 => //.
+    rewrite le_maxr; apply/orP; left; apply: lmax_ge0; exact: col_list_ge0.
+  Qed.
+
+  (* alpha_ is the first grid value attaining the best cv value; best_score_ is that value *)
+  Lemma alpha_first_argmax :
+    let r := best_idx c in
+    [/\ (r < size alphas)%N, alpha_ c = nth 0 alphas r,
+        best_score c = nth 0 (cv_values c) r,
+        forall j, (j < size alphas)%N -> nth 0 (cv_values c) j <= nth 0 (cv_values c) r
+      & forall j, (j < r)%N -> nth 0 (cv_values c) j < nth 0 (cv_values c) r].
+  Proof.
+    case: Hyp => _ _ _ _ [Hn _].
+    have Hs : (0 < size (cv_values c))%N by rewrite size_cv_values.
+    have [H1 H2 H3] := argmax_spec Hs.
+    split=> //; first by rewrite -size_cv_values.
+    - by rewrite /best_score lmax_argmax.
+    - by move=> j Hj; apply: H2; rewrite size_cv_values.
+  Qed.
+
+  (* every fold model and the final model is the explicit regularised fit *)
+  Lemma W1_reg_solution a : cutoff || (0 <= a) ->
+    reg_solution (env n1 k1 vU1) (strunc cutoff rcond a (env k1 1%N vS1)) (env p k1 vV1)
+                 (env n1 t vy1) (aeff cutoff a) (W1 a).
+  Proof.
+    case: Hyp => H1 _ _ rc0 _ a0; split.
+    - exact: (@fold_normal_eq F n1 p k1 t env vX1 vU1 vS1 vV1 vy1 cutoff rcond a).
+    - exact: (@fold_rowspace F n1 p k1 t env vX1 vU1 vS1 vV1 vy1 cutoff rcond a).
+  Qed.
+
+  Lemma W2_reg_solution a : cutoff || (0 <= a) ->
+    reg_solution (env n2 k2 vU2) (strunc cutoff rcond a (env k2 1%N vS2)) (env p k2 vV2)
+                 (env n2 t vy2) (aeff cutoff a) (W2 a).
+  Proof.
+    case: Hyp => _ H2 _ rc0 _ a0; split.
+    - exact: (@fold_normal_eq F n2 p k2 t env vX2 vU2 vS2 vV2 vy2 cutoff rcond a).
+    - exact: (@fold_rowspace F n2 p k2 t env vX2 vU2 vS2 vV2 vy2 cutoff rcond a).
+  Qed.
+
+  Lemma coef_E : coef_ c = (Wfull (best_scaled_alpha c))^T.
+  Proof. by []. Qed.
+
+  Lemma best_scaled_alpha_ge0 : 0 <= best_scaled_alpha c.
+  Proof. by have [Hr _ _ _ _] := alpha_first_argmax; exact: salphas_ge0. Qed.
+
+  Lemma coef_reg_solution :
+    let a := best_scaled_alpha c in
+    reg_solution (env n k vU) (strunc cutoff rcond a (env k 1%N vS)) (env p k vV)
+                 (env n t vy) (aeff cutoff a) (coef_ c)^T.
+  Proof.
+    case: Hyp => _ _ H3 rc0 _ /=; rewrite coef_E trmxK.
+    have a0 : cutoff || (0 <= best_scaled_alpha c) by rewrite best_scaled_alpha_ge0 orbT.
+    split.
+    - exact: (@fold_normal_eq F n p k t env vX vU vS vV vy cutoff rcond _).
+    - exact: (@fold_rowspace F n p k t env vX vU vS vV vy cutoff rcond _).
+  Qed.
+
+  Lemma predict_E : predict c = env nn p vXnew *m (coef_ c)^T.
+  Proof. by rewrite /predict /predict_prog /= {1}/genv /genv_n env_set_other. Qed.
+
+  (* directions of the full data with singular value <= rcond are excluded from coef_ *)
+  Lemma coef_rank_excluded (i : 'I_k) :
+    env k 1%N vS i ord0 <= rcond -> (col i (env p k vV))^T *m (coef_ c)^T = 0.
+  Proof.
+    case: Hyp => _ _ H3 _ _ Hi; rewrite coef_E trmxK.
+    apply: (@fold_excluded F n p k t env vX vU vS vV vy cutoff rcond _) => //.
+    by rewrite /keep ltNge Hi.
+  Qed.
+
+  (* ... so the coefficients stay bounded: |coef_| <= |y| / rcond *)
+  Lemma coef_bounded : 0 < rcond -> rcond ^+ 2 * fn2 (coef_ c) <= fn2 (env n t vy).
+  Proof.
+    case: Hyp => _ _ H3 rc0 _ rp; rewrite -fn2_tr coef_E trmxK.
+    apply: (@fold_bounded F n p k t env vX vU vS vV vy cutoff rcond _) => //.
+    by rewrite best_scaled_alpha_ge0 orbT.
+  Qed.
+End Whole.
